@@ -170,13 +170,62 @@ def readerNames (t : Topo) : List String :=
   (lookupKey t "face_coordinates").getD [] ++
   Gen.Conv.CONNECTIVITY_NAMES.flatMap (fun c => (lookupKey t c).getD [])
 
+/-! ### `_standardize_connectivity`: the start index -/
+
+/-- smallest real (non-padding) entry of a table -/
+def minNonFill (t : Table) : Option Int := (t.flatten.filter (· != FILL)).min?
+
+/-- shift every real entry by `s` -/
+def shiftTable (s : Int) (t : Table) : Table :=
+  t.map (·.map (fun x => if x = FILL then FILL else x - s))
+
+/-- `_standardize_connectivity` on a table that already has the standard dtype and fill value:
+    the `start_index` ATTRIBUTE when the variable has one — whatever its value, `0` included —
+    otherwise the smallest real entry (and `0` for a table of padding only). -/
+def standardize (start : Option Int) (t : Table) : Table :=
+  shiftTable (match start with
+    | some s => s
+    | none => (minNonFill t).getD 0) t
+
+/-- a reader that tests the attribute's truth value (`if not start_index`) confuses an explicit
+    `start_index = 0` with an absent attribute -/
+def standardizeFalsy (start : Option Int) (t : Table) : Table :=
+  standardize (match start with
+    | some 0 => none
+    | s => s) t
+
+/-- The `start_index` attribute an exported connectivity variable carries: the grid's tables are
+    0-based, so a variable that has the attribute has it with value `0` (the conventions'
+    `*_CONNECTIVITY_ATTRS`, regenerated as `Gen.Conv.VAR_START_INDEX`). -/
+def startOf (v : Var) : Option Int :=
+  if v.attrs.any (fun a => a.1 == "start_index") then some 0 else none
+
 /-- `_read_ugrid` on an export: `none` when it raises.  The payload is found through the names the
-    topology gives for the node coordinates and for `face_node_connectivity`. -/
+    topology gives for the node coordinates and for `face_node_connectivity`; the table is
+    standardised with the `start_index` attribute of the exported variable. -/
 def decodeUgrid {P} (o : UgridOut P) : Option (Table × List P) :=
   if (readerNames o.topo).all (fun n => (varNames o.vars).contains n)
       && lookupKey o.topo "node_coordinates" == some ["node_lon", "node_lat"]
       && lookupKey o.topo "face_node_connectivity" == some ["face_node_connectivity"]
-  then some (o.table, o.nodes) else none
+  then
+    match o.vars.find? (fun v => v.name == "face_node_connectivity") with
+    | some v => some (standardize (startOf v) o.table, o.nodes)
+    | none => none
+  else none
+
+/-- carried-over connectivity tables of a re-opened grid: `(name, start_index attribute of the
+    export, table on the grid, table on the re-opened grid)`.  Specification: every table comes back
+    entry by entry; model of the reader: the standardised exported table. -/
+def carriedFailing (ts : List (String × Option Int × Table × Table)) : List String :=
+  (ts.filter (fun e => e.2.2.1 != e.2.2.2)).map (·.1)
+
+/-- the reader standardises the connectivity variables (`CONNECTIVITY_NAMES`) and leaves every
+    other variable (`n_nodes_per_face`) alone -/
+def readTable (name : String) (start : Option Int) (t : Table) : Table :=
+  if Gen.Conv.CONNECTIVITY_NAMES.contains name then standardize start t else t
+
+def carriedModelDiffers (ts : List (String × Option Int × Table × Table)) : List String :=
+  (ts.filter (fun e => readTable e.1 e.2.1 e.2.2.1 != e.2.2.2)).map (·.1)
 
 /-! ## Exodus -/
 
